@@ -449,14 +449,15 @@ class Corr:
             return i
 
         for t in range(self.T):
+            if not periodic and t + 2 * (N - 1) >= self.T:
+                new_content[t] = None
+                continue
+            if any(self.content[wrap(t + k)] is None for k in range(2 * N - 1)):
+                new_content[t] = None
+                continue
             for i in range(N):
                 for j in range(N):
-                    if periodic:
-                        new_content[t][i, j] = self.content[wrap(t + i + j)][0]
-                    elif (t + i + j) >= self.T:
-                        new_content[t] = None
-                    else:
-                        new_content[t][i, j] = self.content[t + i + j][0]
+                    new_content[t][i, j] = self.content[wrap(t + i + j)][0]
 
         return Corr(new_content)
 
